@@ -242,6 +242,9 @@ func catalogue() []geom.Geom {
 		geom.MultiLineString{{{X: 0, Y: 0}, {X: 100, Y: 0}}, {{X: 200, Y: 0}, {X: 300, Y: 0}, {X: 300, Y: 100}}, {{X: 0, Y: 200}, {X: 100, Y: 210}}},
 		geom.MultiLineString{{{X: 0, Y: 0}, {X: 100, Y: 0}}},
 		pAxis, pGen, pOpen, pOpenMinLast,
+		// a closed ring that visits one vertex twice (two loops touching at the
+		// origin): a rotation may start at either visit
+		geom.Polygon{{{X: 0, Y: 0}, {X: 100, Y: 0}, {X: 100, Y: 100}, {X: 0, Y: 0}, {X: -100, Y: 0}, {X: -100, Y: -100}, {X: 0, Y: 0}}},
 		geom.Polygon{gen(0, 0)},
 		geom.MultiPolygon{pGen, shift(pGen, 1000), shift(geom.Polygon{gen(0, 0)}, 2000)},
 		geom.MultiPolygon{pAxis, shift(pAxis, 1000)},
@@ -468,7 +471,7 @@ func main() {
 		return
 	}
 	rep = report.New("C15", tier, "model_checking")
-	rep.Rule = "E1: 19 base geometries of all eight types (axis-aligned and general-position rings, closed and unclosed, nested collections, empty geometries) whose members are >= 90 apart, tol in {1e-3, 0.1}; for each every derived h: identity; all coordinates perturbed by +-tol/2 in 6 sign patterns (expected true); every permutation of members combined with perturbation (true); every start rotation of closed rings (true); every single coordinate displaced by 2*tol, incl. the closing vertex of a closed ring on its own (false); every member deleted / duplicated at every position (false); every line / line member reversed (false); change of type with identical vertices (false); and, for containers, every such derivation applied to every member with the other members unchanged (nested to depth 2: rings permuted inside a multi-polygon member, members of a nested collection, ...). Every pair is evaluated in both directions (symmetry). Non-trivial = every derivation other than identity."
+	rep.Rule = "E1: 20 base geometries of all eight types (axis-aligned and general-position rings, closed and unclosed, a ring visiting one vertex twice, nested collections, empty geometries) whose members are >= 90 apart, tol in {1e-3, 0.1}; for each every derived h: identity; all coordinates perturbed by +-tol/2 in 6 sign patterns (expected true); every permutation of members combined with perturbation (true); every start rotation of closed rings (true); every single coordinate displaced by 2*tol, incl. the closing vertex of a closed ring on its own (false); every member deleted / duplicated at every position (false); every line / line member reversed (false); change of type with identical vertices (false); and, for containers, every such derivation applied to every member with the other members unchanged (nested to depth 2: rings permuted inside a multi-polygon member, members of a nested collection, ...). Every pair is evaluated in both directions (symmetry). Non-trivial = every derivation other than identity."
 	cat := catalogue()
 	if tier == "thorough" {
 		cat = append(cat, generated()...)
